@@ -231,6 +231,36 @@ def e2_greedy_bound(ctx, n):
                                {"edges": [[u, v, d] for u, v, d in G.edges(data=True)], "k": k, "solution": sol})
 
 
+def e2_float_greedy(ctx, n):
+    """kFlowDecomp with k ABOVE the number of paths needed, on exactly conserving flows whose float sums are inexact
+    (trunk = 0.2 + 0.1): the greedy shortcut pads with zero-weight routes, and every returned route -- also a padded one --
+    must be a source-to-sink path of the caller's graph"""
+    import flowpaths as fp
+    for i in range(n):
+        rng = ctx.rng("floatgreedy", i)
+        G, _ = gen.float_conserving_dag(rng)
+        try:
+            needed = len(fp.stDAG(G).decompose_using_max_bottleneck("flow")[0])
+        except Exception as e:
+            ctx.report("decompose_using_max_bottleneck raised " + repr(e), {"edges": [[u, v, d] for u, v, d in G.edges(data=True)]}); continue
+        for k in (needed + 1, needed + 2):
+            try:
+                m = fp.kFlowDecomp(G, flow_attr="flow", k=k, weight_type=float, solver_options={"threads": zoo.THREADS}); m.solve()
+            except Exception as e:
+                ctx.report("kFlowDecomp raised " + repr(e), {"edges": [[u, v, d] for u, v, d in G.edges(data=True)], "k": k}); continue
+            ctx.case(["floatgreedy", sorted((u, v, d["flow"]) for u, v, d in G.edges(data=True)), k], nontrivial=needed >= 2)
+            ctx.count("E2_float_flows_k_above_needed", "cases")
+            if not m.is_solved():
+                continue
+            sol = m.get_solution()
+            for r, w in zip(sol["paths"], sol["weights"]):
+                why = props.valid_route(G, r, simple=True)
+                if why or w < 0:
+                    ctx.report(f"kFlowDecomp(k={k}, {needed} paths suffice): returned route {r} (weight {w}) is not a source-to-sink path of the "
+                               f"caller's graph: {why}", {"edges": [[u, v, d] for u, v, d in G.edges(data=True)], "k": k, "solution": sol})
+                    break
+
+
 VB = None
 
 
@@ -245,5 +275,6 @@ def run(ctx):
     e1_kpc(ctx, ctx.budget(60, 1500))
     e2_all(ctx, ctx.budget(240, 6000))
     e2_greedy_bound(ctx, ctx.budget(80, 2000))
+    e2_float_greedy(ctx, ctx.budget(60, 1500))
     VB.flush()
     gencheck01.run_generated_c01(ctx); gencheck_enc.run_generated_kpc(ctx)      # generated-model tie: augmentation, DAG decoder, kPathCover encoder (coq/gen_proofs)
